@@ -3,6 +3,7 @@ C09): every value they return must be canonical.  The harness prints the digit v
 re-normalisation), so a redundant high zero digit shows up as `…,0`.  Values sit on and around 64-bit digit boundaries,
 where a top input digit straddles two native digits, with and without leading zero input digits."""
 from genlib import *
+from genlib import _is_bigtok
 
 def to_base(v, r):
     out = []
@@ -43,4 +44,52 @@ def gen(rng, tier):
         for lead in (0, 1, 9):
             reqs.append("C09 u.from_bytes_le %s" % wbytes(bs + [0] * lead))
             reqs.append("C09 u.from_bytes_be %s" % wbytes([0] * lead + list(reversed(bs))))
-    return reqs
+    return reqs + shrinking_results(rng, tier)
+
+def shrinking_results(rng, tier):
+    """Canonical form is at stake wherever a result is zero or shorter than its operands.  The value-producing requests
+    of the other arithmetic streams (C01 C02 C03 C07 C08 C12 C13 C19: every operator form, scalar forms, bit operations,
+    shifts, negation / `!` by value and by reference, conversions, gcd/lcm helpers, sign helpers) are generated, run
+    through the compiled model, and those whose MODEL answer contains a zero or a value shorter than the longest operand
+    are added to the C04 run (plus a random sample of the rest).  The harness prints digit vectors and signs exactly as
+    stored, so `[0]`, a high zero digit, `Plus`/`Minus` with an empty magnitude or `NoSign` with digits show up as a
+    disagreement with the model (C04-u1: `!&x` for x = -1 returned `Plus` with no digits)."""
+    import importlib, os, subprocess
+    drv = os.path.join(os.path.dirname(os.path.dirname(os.path.dirname(os.path.abspath(__file__)))), "lean", ".lake", "build", "bin", "nbdrv")
+    cand = []
+    for name in ("c01", "c02", "c03", "c07", "c08", "c12", "c13", "c19"):
+        try:
+            mod = importlib.import_module(name)
+            ls = [l for l in mod.gen(rng, "quick") if len(l) < 700 and " raw." not in l and ".huge" not in l and " work" not in l]
+        except Exception:  # noqa: BLE001
+            continue
+        if len(ls) > 12000:
+            ls = rng.sample(ls, 12000)
+        cand += ls
+    if not cand:
+        return []
+    picked = []
+    try:
+        p = subprocess.run([drv], input="\n".join(cand) + "\n", capture_output=True, text=True, timeout=600)
+        outs = p.stdout.split("\n")
+        if p.returncode == 0 and len(outs) >= len(cand):
+            for l, o in zip(cand, outs):
+                m = o.split(" | ")[0]
+                if not (m.startswith("ok") or m.startswith("some")):
+                    continue
+                res = m.split()[1:]
+                ops = l.split()[2:]
+                nd = lambda t: 0 if t.strip("+-") in (".", "0.", "0") else t.count(",") + 1
+                bigops = [t for t in ops if _is_bigtok(t)]
+                bigres = [t for t in res if _is_bigtok(t)]
+                if not bigres:
+                    continue
+                if any(t in (".", "0.") for t in bigres) or (bigops and min(nd(t) for t in bigres) < max(nd(t) for t in bigops)):
+                    picked.append(l)
+    except Exception:  # noqa: BLE001
+        picked = []
+    cap = 20000 if tier == "thorough" else 7000
+    if len(picked) > cap:
+        picked = rng.sample(picked, cap)
+    rest = rng.sample(cand, min(len(cand), 6000 if tier == "thorough" else 2500))
+    return picked + rest
